@@ -700,6 +700,12 @@ inline void randomCase(Ctx& c, long idx)
     size_t k = r.range(1, 4);
     std::vector<std::pair<uint16_t, uint8_t>> eps;
     const bool wideIds = r.chance(1, 4);  // mostly the small alphabet (neighbours collide constantly), sometimes any id
+    if (wideIds && k >= 2 && r.chance(1, 3))
+    {
+        auto pr = decimalAliasPair(r);
+        eps.push_back(pr.first);
+        eps.push_back(pr.second);
+    }
     while (eps.size() < k)
     {
         std::pair<uint16_t, uint8_t> e{pickDevice(r), pickStream(r)};
